@@ -935,8 +935,8 @@ func (fr *Frame) backEdge(li *loopInfo, from *ssa.BasicBlock, edge string, st *S
 	if !fr.c.wantTermination() {
 		return
 	}
-	if (li.spec == nil || len(li.spec.Decreases) == 0) && li.rangePhi != nil {
-		// range over a slice/array: the hidden index increases by one up to a fixed length
+	if (li.spec == nil || len(li.spec.Decreases) == 0) && (li.rangePhi != nil || headerHasNext(li.header)) {
+		// range over a slice/array/string/map: the hidden index increases up to a fixed length
 		return
 	}
 	if li.spec == nil || len(li.spec.Decreases) == 0 {
@@ -967,6 +967,15 @@ func (fr *Frame) backEdge(li *loopInfo, from *ssa.BasicBlock, edge string, st *S
 		srcs = append(srcs, d.Src)
 	}
 	c.obligation("dec", fmt.Sprintf("L%d", li.ord), li.pos, "loop "+fmt.Sprint(li.ord)+" decreases "+strings.Join(srcs, ", "), edge, goal, nil)
+}
+
+func headerHasNext(h *ssa.BasicBlock) bool {
+	for _, ins := range h.Instrs {
+		if _, ok := ins.(*ssa.Next); ok {
+			return true
+		}
+	}
+	return false
 }
 
 func (c *FnCtx) wantTermination() bool { return c.fc != nil && c.fc.Terminates }
